@@ -287,38 +287,14 @@ func (e *Exec) intrinsic(fn *ssa.Function, name string, args []Value) (Value, bo
 	case "vOutFlushed":
 		return e.st.Bool(e.cmd.flushed && e.cmd.closed), true
 	case "vOutByte":
-		i := e.constInt(args[0])
-		pos := int64(0)
-		for _, sg := range e.cmd.out {
-			if sg.n.op != OpConst {
-				e.unsupported("vOutByte beyond the concrete-length prefix of the output")
-			}
-			if i < pos+int64(sg.n.val) {
-				return e.st.Select(sg.arr, e.st.Bin(OpAdd, sg.off, e.c64(i-pos))), true
-			}
-			pos += int64(sg.n.val)
-		}
-		return e.st.Const(8, 0), true // beyond the end of the output
+		return e.outAt(e.c64(e.constInt(args[0]))), true
 	case "vOutEqAt":
-		// out[i+j] == b[j] where the output from offset i on is one chunk
+		// out[i+j] == b[j]
 		i := e.constInt(args[0])
 		b := args[1].(*SliceV)
 		j := args[2].(*Term)
-		pos := int64(0)
-		for k, sg := range e.cmd.out {
-			if pos == i {
-				if k != len(e.cmd.out)-1 {
-					return e.st.False, true
-				}
-				bb := e.sliceBytes(b)
-				return e.st.Eq(e.st.Select(sg.arr, e.st.Bin(OpAdd, sg.off, j)), e.st.Select(bb.arr, e.st.Bin(OpAdd, b.off, j))), true
-			}
-			if sg.n.op != OpConst {
-				break
-			}
-			pos += int64(sg.n.val)
-		}
-		return e.st.False, true
+		bb := e.sliceBytes(b)
+		return e.st.Eq(e.outAt(e.st.Bin(OpAdd, e.c64(i), j)), e.st.Select(bb.arr, e.st.Bin(OpAdd, b.off, j))), true
 	}
 	return nil, false
 }
@@ -534,11 +510,105 @@ func (e *Exec) stub(fn *ssa.Function, full string, args []Value) (Value, bool) {
 		}
 		e.objSeq++
 		return TupleV{&PtrV{obj: e.newObj(&OpaqueV{kind: "file", id: e.objSeq}, "file")}, &IfaceV{}}, true
+	case "os.Open":
+		// the input file of vCmdFile, read sequentially
+		if e.cmd.file == nil {
+			e.unsupported("os.Open without vCmdFile")
+		}
+		e.cmd.readName = args[0].(*StringV)
+		e.objSeq++
+		return TupleV{&PtrV{obj: e.newObj(&OpaqueV{kind: "file", id: e.objSeq, data: &inFile{pos: e.c64(0)}}, "input file")}, &IfaceV{}}, true
+	case "(*os.File).Stat":
+		in := e.inFileOf(args[0])
+		if in == nil {
+			e.unsupported("Stat of an output file")
+		}
+		e.objSeq++
+		return TupleV{&IfaceV{t: types.Typ[types.UnsafePointer], v: &OpaqueV{kind: "fileinfo", id: e.objSeq}}, &IfaceV{}}, true
+	case "(*os.File).Read", "io.ReadFull", "io.ReadAtLeast":
+		in := e.inFileOf(args[0])
+		if in == nil {
+			e.unsupported(full + " on something other than the input file")
+		}
+		buf := args[1].(*SliceV)
+		f := e.cmd.file
+		rem := e.st.Bin(OpSub, f.len, in.pos)
+		min := buf.len // bytes needed for a nil error
+		if full == "io.ReadAtLeast" {
+			min = e.toIdx(args[2].(*Term), types.Typ[types.Int])
+		}
+		if buf.len.op == OpConst && buf.len.val == 0 {
+			return TupleV{e.c64(0), &IfaceV{}}, true
+		}
+		if e.Branch(e.st.Eq(rem, e.c64(0))) {
+			return TupleV{e.c64(0), e.sentinel("io", "EOF")}, true
+		}
+		n := buf.len
+		var err Value = &IfaceV{}
+		if e.Branch(e.st.Cmp(OpUlt, rem, buf.len)) {
+			// contract: a read of a regular file returns everything that is left
+			n = rem
+			if full != "(*os.File).Read" && e.Branch(e.st.Cmp(OpUlt, rem, min)) {
+				err = e.sentinel("io", "ErrUnexpectedEOF")
+			}
+		}
+		db := e.sliceBytes(buf)
+		db.arr = e.st.ArrCopy(db.arr, e.sliceBytes(f).arr, buf.off, e.st.Bin(OpAdd, f.off, in.pos), n)
+		in.pos = e.st.Bin(OpAdd, in.pos, n)
+		return TupleV{n, err}, true
+	case "io.ReadAll":
+		in := e.inFileOf(args[0])
+		if in == nil {
+			e.unsupported("io.ReadAll on something other than the input file")
+		}
+		f := e.cmd.file
+		rem := e.st.Bin(OpSub, f.len, in.pos)
+		r := &SliceV{obj: f.obj, path: f.path, off: e.st.Bin(OpAdd, f.off, in.pos), len: rem, cap: rem}
+		in.pos = f.len
+		return TupleV{r, &IfaceV{}}, true
+	case "io.Copy", "(*bufio.Writer).ReadFrom", "(*os.File).ReadFrom":
+		si := 1
+		in := e.inFileOf(args[1])
+		if in == nil {
+			e.unsupported(full + ": source is not the input file")
+		}
+		f := e.cmd.file
+		rem := e.st.Bin(OpSub, f.len, in.pos)
+		seg := outSeg{e.sliceBytes(f).arr, e.st.Bin(OpAdd, f.off, in.pos), rem}
+		in.pos = f.len
+		_ = si
+		switch e.outKind(args[0]) {
+		case "bufio":
+			e.cmd.pending = append(e.cmd.pending, seg)
+			e.cmd.flushed = false
+		case "file":
+			e.cmd.out = append(e.cmd.out, seg)
+		default:
+			e.unsupported(full + ": destination is neither the output file nor its bufio.Writer")
+		}
+		return TupleV{rem, &IfaceV{}}, true
+	case "(*os.File).Write":
+		// unbuffered write to the output file
+		if e.inFileOf(args[0]) != nil {
+			e.unsupported("write to the input file")
+		}
+		sl := args[1].(*SliceV)
+		if sl.obj != nil {
+			bb := e.sliceBytes(sl)
+			// buffered data not flushed yet would come later in the file: keep the order honest
+			if len(e.cmd.pending) > 0 {
+				e.unsupported("direct file write while the bufio.Writer holds unflushed data")
+			}
+			e.cmd.out = append(e.cmd.out, outSeg{bb.arr, sl.off, sl.len})
+		}
+		return TupleV{sl.len, &IfaceV{}}, true
 	case "os.Create":
 		e.objSeq++
 		return TupleV{&PtrV{obj: e.newObj(&OpaqueV{kind: "file", id: e.objSeq}, "file")}, &IfaceV{}}, true
 	case "(*os.File).Close":
-		e.cmd.closed = true
+		if e.inFileOf(args[0]) == nil {
+			e.cmd.closed = true
+		}
 		return &IfaceV{}, true
 	case "bufio.NewWriter":
 		e.objSeq++
@@ -776,6 +846,9 @@ func (e *Exec) extCall(fv *FuncV, args []Value) Value {
 		e.ctxRel[c.id] = e.release(e.ctxRel[c.id])
 		e.wake()
 		return nil
+	case fv.ext == "opaque:fileinfo.Size":
+		// size of the input file
+		return e.cmd.file.len
 	case strings.HasPrefix(fv.ext, "opaque:ctx."):
 		m := fv.ext[len("opaque:ctx."):]
 		op := fv.data.(*OpaqueV)
@@ -1400,4 +1473,65 @@ func (e *Exec) syncMap(fn *ssa.Function, method string, args []Value) Value {
 type syncMapState struct {
 	present *Term
 	vals    map[int]Value
+}
+
+// inFile is the read position of the command's input file.
+type inFile struct{ pos *Term }
+
+// inFileOf: the input-file state behind a *os.File (possibly inside an
+// io.Reader), nil for anything else.
+func (e *Exec) inFileOf(v Value) *inFile {
+	if iv, ok := v.(*IfaceV); ok {
+		v = iv.v
+	}
+	p, ok := v.(*PtrV)
+	if !ok || p.obj == nil {
+		return nil
+	}
+	if o, ok := p.obj.v.(*OpaqueV); ok && o.kind == "file" {
+		if in, ok := o.data.(*inFile); ok {
+			return in
+		}
+	}
+	return nil
+}
+
+// outKind: "file" for the output *os.File, "bufio" for its bufio.Writer.
+func (e *Exec) outKind(v Value) string {
+	if iv, ok := v.(*IfaceV); ok {
+		v = iv.v
+	}
+	p, ok := v.(*PtrV)
+	if !ok || p.obj == nil {
+		return ""
+	}
+	if o, ok := p.obj.v.(*OpaqueV); ok {
+		if o.kind == "file" && o.data == nil {
+			return "file"
+		}
+		return o.kind
+	}
+	return ""
+}
+
+// outAt: the byte at position p of the flushed output, the output being a
+// sequence of segments with possibly symbolic lengths (0 beyond the end).
+func (e *Exec) outAt(p *Term) *Term {
+	type piece struct {
+		lo, hi *Term
+		v      *Term
+	}
+	var ps []piece
+	pos := e.c64(0)
+	for _, sg := range e.cmd.out {
+		hi := e.st.Bin(OpAdd, pos, sg.n)
+		ps = append(ps, piece{pos, hi, e.st.Select(sg.arr, e.st.Bin(OpAdd, sg.off, e.st.Bin(OpSub, p, pos)))})
+		pos = hi
+	}
+	r := e.st.Const(8, 0)
+	for i := len(ps) - 1; i >= 0; i-- {
+		in := e.st.And(e.st.Cmp(OpUle, ps[i].lo, p), e.st.Cmp(OpUlt, p, ps[i].hi))
+		r = e.st.Ite(in, ps[i].v, r)
+	}
+	return r
 }
